@@ -1,1 +1,702 @@
-/- C16 — property theorems (stub: not built yet). -/
+/-
+C16 — timed lists behave like ordered collections of their rows.
+
+Model: `Model/TList.lean` (rows with pandas row labels; the operations of TimedList / HoldList / BpmList as
+written). Specification: `Spec/TList.lean` (the same operations on a plain `List` of rows, no labels).
+The schemas of all list classes come from the source (`Generated/Schemas.lean`).
+-/
+import Reamber.Lemmas.TList
+import Reamber.Generated.Schemas
+
+namespace Reamber.TList
+
+open Reamber.Generated
+
+section sim
+variable {α : Type} (off len : α → Rat)
+
+/-! ## 1. Simulation: labels never reach an observable -/
+
+/-- One operation: dropping the labels after the step = the operation on the plain sequence of rows.
+Covers every operation, every content, every labelling (duplicated, permuted, gapped labels included),
+and the exception (slice step 0). -/
+theorem step_rows (op : Op α) (t : Tbl α) :
+    (step off len op t).map rows = stepRows off len op (rows t) := by
+  cases op with
+  | slice a b c =>
+    simp only [step, sliceT, stepRows, rows]
+    exact (pySlice_map Prod.snd t a b c).symm
+  | after x incl => simp only [step, afterT, stepRows]; exact maskOn_rows off true incl x t
+  | before x incl => simp only [step, beforeT, stepRows]; exact maskOn_rows off false incl x t
+  | between lo hi il ih =>
+    simp only [step, betweenT, afterT, beforeT, stepRows]
+    exact twoStage_rows off off true il lo false ih hi t
+  | hAfter x incl tail =>
+    have hk : (fun a => keep true incl x (off a + if tail then len a else 0))
+        = fun a => keep true incl x (tailKey off len tail a) := by
+      funext a; cases tail <;> simp [tailKey]
+    simp only [step, hAfterT, stepRows]
+    rw [maskOn_rows, hk]
+  | hBefore x incl head =>
+    have hk : (fun a => keep false incl x (off a + if !head then len a else 0))
+        = fun a => keep false incl x (tailKey off len (!head) a) := by
+      funext a; cases head <;> simp [tailKey]
+    simp only [step, hBeforeT, stepRows]
+    rw [maskOn_rows, hk]
+  | hBetween lo hi il ih head tail =>
+    have hk : (fun a => keep true il lo (off a + if tail then len a else 0)
+          && keep false ih hi (off a + if !head then len a else 0))
+        = fun a => keep true il lo (tailKey off len tail a) && keep false ih hi (tailKey off len (!head) a) := by
+      funext a; cases head <;> cases tail <;> simp [tailKey]
+    simp only [step, hBetweenT, hAfterT, hBeforeT, stepRows]
+    refine (twoStage_rows (fun a => off a + if tail then len a else 0) (fun a => off a + if !head then len a else 0)
+      true il lo false ih hi t).trans ?_
+    rw [hk]
+  | sorted rev => simp [step, stepRows, Except.map, rows_sortedT]
+  | append ys sort =>
+    cases sort <;> simp [step, stepRows, appendT, Except.map, rows_sortedT, rows_relabel]
+
+/-- **Simulation** (DESIGN §6 C16): for every finite sequence of operations, every content and every
+labelling, the rows of the model's result are the result of the same operations on the plain sequence
+of rows; an exception on one side is the same exception on the other. -/
+theorem run_rows (ops : List (Op α)) (t : Tbl α) :
+    (run off len ops t).map rows = runRows off len ops (rows t) := by
+  induction ops generalizing t with
+  | nil => rfl
+  | cons op ops ih =>
+    have h := step_rows off len op t
+    simp only [run, runRows]
+    cases hs : step off len op t with
+    | error e => rw [hs] at h; simp only [Except.map] at h; rw [← h]; rfl
+    | ok t' => rw [hs] at h; simp only [Except.map] at h; rw [← h]; exact ih t'
+
+/-- Two tables with the same rows and *any* two labellings are indistinguishable through any history. -/
+theorem labels_irrelevant (ops : List (Op α)) (t t' : Tbl α) (h : rows t = rows t') :
+    (run off len ops t).map rows = (run off len ops t').map rows := by
+  rw [run_rows, run_rows, h]
+
+/-! ## 2. The plain-sequence function meets the relational specification; any tie order -/
+
+theorem stepRows_spec (op : Op α) (xs : List α) : SpecStep off len op xs (stepRows off len op xs) := by
+  cases op with
+  | sorted rev => exact ⟨_, rfl, isort_perm _ _, isort_ordered off rev xs⟩
+  | append zs sort =>
+    cases sort
+    · simp [SpecStep, stepRows]
+    · simp only [SpecStep, stepRows, if_true]
+      exact ⟨_, rfl, isort_perm _ _, isort_ordered off false _⟩
+  | _ => simp [SpecStep, stepRows]
+
+/-- the executable model is one of the behaviours `StepRel` allows -/
+theorem step_StepRel (op : Op α) (t : Tbl α) : StepRel off len op t (step off len op t) := by
+  cases op with
+  | sorted rev =>
+    refine ⟨sortedT off t rev, rfl, isort_perm _ _, ?_⟩
+    rw [rows_sortedT]; exact isort_ordered off rev _
+  | append zs sort =>
+    cases sort
+    · simp [StepRel]
+    · refine ⟨sortedT off (relabel (rows t ++ zs)) false, by simp [step, appendT], isort_perm _ _, ?_⟩
+      rw [rows_sortedT]; exact isort_ordered off false _
+  | _ => simp [StepRel]
+
+/-- Whatever order numpy gives to rows of equal offset, a step on the labelled table is the operation on the
+plain sequence of rows. -/
+theorem StepRel_spec (op : Op α) (t : Tbl α) (r : Except Err (Tbl α)) (h : StepRel off len op t r) :
+    SpecStep off len op (rows t) (r.map rows) := by
+  cases op with
+  | sorted rev =>
+    obtain ⟨t', rfl, hp, ho⟩ := h
+    exact ⟨rows t', rfl, hp.map _, ho⟩
+  | append zs sort =>
+    cases sort
+    · have h' : r = step off len (.append zs false) t := by simpa [StepRel] using h
+      rw [h', step_rows]; exact stepRows_spec off len _ _
+    · obtain ⟨t', rfl, hp, ho⟩ := h
+      simp only [SpecStep, if_true]
+      refine ⟨rows t', rfl, ?_, ho⟩
+      have := hp.map Prod.snd
+      rw [show List.map Prod.snd (relabel (rows t ++ zs)) = rows t ++ zs from rows_relabel _] at this
+      exact this
+  | slice a b c => have h' : r = _ := h; rw [h', step_rows]; exact stepRows_spec off len _ _
+  | after x incl => have h' : r = _ := h; rw [h', step_rows]; exact stepRows_spec off len _ _
+  | before x incl => have h' : r = _ := h; rw [h', step_rows]; exact stepRows_spec off len _ _
+  | between lo hi il ih => have h' : r = _ := h; rw [h', step_rows]; exact stepRows_spec off len _ _
+  | hAfter x incl tail => have h' : r = _ := h; rw [h', step_rows]; exact stepRows_spec off len _ _
+  | hBefore x incl head => have h' : r = _ := h; rw [h', step_rows]; exact stepRows_spec off len _ _
+  | hBetween lo hi il ih head tail => have h' : r = _ := h; rw [h', step_rows]; exact stepRows_spec off len _ _
+
+/-- **Simulation for any tie order**: every history of the labelled table — with an arbitrary order among
+rows of equal offset at every sort — is a history of the plain sequence of its rows. -/
+theorem RunRel_spec (ops : List (Op α)) (t : Tbl α) (r : Except Err (Tbl α)) (h : RunRel off len ops t r) :
+    RunSpec off len ops (rows t) (r.map rows) := by
+  induction h with
+  | nil t => exact RunSpec.nil _
+  | err hs => exact RunSpec.err (StepRel_spec off len _ _ _ hs)
+  | cons hs _ ih => exact RunSpec.cons (StepRel_spec off len _ _ _ hs) ih
+
+/-- the executable run is one such history -/
+theorem run_RunRel (ops : List (Op α)) (t : Tbl α) : RunRel off len ops t (run off len ops t) := by
+  induction ops generalizing t with
+  | nil => exact RunRel.nil t
+  | cons op ops ih =>
+    have hs := step_StepRel off len op t
+    simp only [run]
+    cases h : step off len op t with
+    | error e => rw [h] at hs; exact RunRel.err hs
+    | ok t' => rw [h] at hs; exact RunRel.cons hs (ih t')
+
+theorem run_spec (ops : List (Op α)) (t : Tbl α) :
+    RunSpec off len ops (rows t) ((run off len ops t).map rows) :=
+  RunRel_spec off len ops t _ (run_RunRel off len ops t)
+
+/-! ## 3. Observables -/
+
+theorem lenT_rows (t : Tbl α) : lenT t = (rows t).length := by simp [lenT, rows]
+
+/-- `tl.df.iloc[i]` is Python indexing of the plain sequence (negative indices, IndexError) -/
+theorem getRow_rows (t : Tbl α) (i : Int) : getRow t i = pyGet (rows t) i := by
+  unfold getRow rows
+  rw [pyGet_map]
+  cases pyGet t i <;> rfl
+
+theorem firstOffset_spec (t : Tbl α) : SpecFirst off (rows t) (firstOffset off t) := by
+  unfold firstOffset
+  have hm : t.map (fun r => off r.2) = (rows t).map off := by simp [rows, List.map_map, Function.comp_def]
+  rw [hm]
+  cases h : (rows t).map off with
+  | nil => simpa [SpecFirst] using h
+  | cons x xs =>
+    simp only [SpecFirst, IsMin]
+    rw [h]; exact minL_spec x xs
+
+theorem lastOffset_spec (t : Tbl α) : SpecLast off (rows t) (lastOffset off t) := by
+  unfold lastOffset
+  have hm : t.map (fun r => off r.2) = (rows t).map off := by simp [rows, List.map_map, Function.comp_def]
+  rw [hm]
+  cases h : (rows t).map off with
+  | nil => simpa [SpecLast] using h
+  | cons x xs =>
+    simp only [SpecLast, IsMax]
+    rw [h]; exact maxL_spec x xs
+
+/-- `HoldList.last_offset`: raises exactly on the empty list, else the greatest tail -/
+theorem hLastOffset_spec (t : Tbl α) :
+    match hLastOffset off len t with
+    | .error _ => rows t = []
+    | .ok m => IsMax m ((rows t).map fun a => off a + len a) := by
+  unfold hLastOffset
+  have hm : t.map (fun r => off r.2 + len r.2) = (rows t).map (fun a => off a + len a) := by
+    simp [rows, List.map_map, Function.comp_def]
+  rw [hm]
+  cases h : (rows t).map (fun a => off a + len a) with
+  | nil => simpa using h
+  | cons x xs => simp only [IsMax]; exact maxL_spec x xs
+
+end sim
+
+/-! ## 4. Inclusive flags at equal offsets; head / tail variants -/
+
+section flags
+variable {α : Type} (off len : α → Rat)
+
+/-- a row whose offset **equals** the bound survives `after` exactly when `include_end` is set -/
+theorem after_boundary (t t' : Tbl α) (x : Rat) (incl : Bool) (a : α) (h : afterT off t x incl = .ok t')
+    (hx : off a = x) : a ∈ rows t' ↔ a ∈ rows t ∧ incl = true := by
+  rw [afterT, maskOn_eq] at h
+  cases h
+  rw [rows_filter (fun a => keep true incl x (off a)) t, List.mem_filter]
+  cases incl <;> simp [keep, hx]
+
+theorem before_boundary (t t' : Tbl α) (x : Rat) (incl : Bool) (a : α) (h : beforeT off t x incl = .ok t')
+    (hx : off a = x) : a ∈ rows t' ↔ a ∈ rows t ∧ incl = true := by
+  rw [beforeT, maskOn_eq] at h
+  cases h
+  rw [rows_filter (fun a => keep false incl x (off a)) t, List.mem_filter]
+  cases incl <;> simp [keep, hx]
+
+/-- membership after `after`: strictly later rows always, rows on the bound iff inclusive -/
+theorem mem_after_iff (t t' : Tbl α) (x : Rat) (incl : Bool) (a : α) (h : afterT off t x incl = .ok t') :
+    a ∈ rows t' ↔ a ∈ rows t ∧ (x < off a ∨ (incl = true ∧ off a = x)) := by
+  rw [afterT, maskOn_eq] at h
+  cases h
+  rw [rows_filter (fun a => keep true incl x (off a)) t, List.mem_filter, keep_gt_iff]
+
+theorem mem_before_iff (t t' : Tbl α) (x : Rat) (incl : Bool) (a : α) (h : beforeT off t x incl = .ok t') :
+    a ∈ rows t' ↔ a ∈ rows t ∧ (off a < x ∨ (incl = true ∧ off a = x)) := by
+  rw [beforeT, maskOn_eq] at h
+  cases h
+  rw [rows_filter (fun a => keep false incl x (off a)) t, List.mem_filter, keep_lt_iff]
+
+/-- holds: with `include_tail` the **tail** (offset + length) is what is compared with the bound, else the head -/
+theorem mem_hAfter_iff (t t' : Tbl α) (x : Rat) (incl tail : Bool) (a : α)
+    (h : hAfterT off len t x incl tail = .ok t') :
+    a ∈ rows t' ↔ a ∈ rows t ∧ (x < tailKey off len tail a ∨ (incl = true ∧ tailKey off len tail a = x)) := by
+  have hk : (off a + if tail then len a else 0) = tailKey off len tail a := by cases tail <;> simp [tailKey]
+  rw [hAfterT, maskOn_eq] at h
+  cases h
+  rw [rows_filter (fun a => keep true incl x (off a + if tail then len a else 0)) t, List.mem_filter, keep_gt_iff, hk]
+
+/-- holds: with `include_head` (the default) the **head** is compared, without it the tail -/
+theorem mem_hBefore_iff (t t' : Tbl α) (x : Rat) (incl head : Bool) (a : α)
+    (h : hBeforeT off len t x incl head = .ok t') :
+    a ∈ rows t' ↔ a ∈ rows t ∧ (tailKey off len (!head) a < x ∨ (incl = true ∧ tailKey off len (!head) a = x)) := by
+  have hk : (off a + if !head then len a else 0) = tailKey off len (!head) a := by cases head <;> simp [tailKey]
+  rw [hBeforeT, maskOn_eq] at h
+  cases h
+  rw [rows_filter (fun a => keep false incl x (off a + if !head then len a else 0)) t, List.mem_filter, keep_lt_iff, hk]
+
+/-- the defaults of `HoldList.after` / `before` are `TimedList`'s filters -/
+theorem hAfter_default (t : Tbl α) (x : Rat) (incl : Bool) : hAfterT off len t x incl false = afterT off t x incl := by
+  simp [hAfterT, afterT]
+
+theorem hBefore_default (t : Tbl α) (x : Rat) (incl : Bool) : hBeforeT off len t x incl true = beforeT off t x incl := by
+  simp [hBeforeT, beforeT]
+
+end flags
+
+/-! ## 5. The decidable specification the harness evaluates is the declarative one -/
+
+section dec
+variable {α : Type} [DecidableEq α] (off len : α → Rat)
+
+theorem sortedPermB_iff (rev : Bool) (xs : List α) (r : Except Err (List α)) :
+    sortedPermB off rev xs r = true ↔ ∃ ys, r = .ok ys ∧ ys.Perm xs ∧ OrderedBy off rev ys := by
+  cases r with
+  | error e => simp [sortedPermB]
+  | ok ys => simp [sortedPermB, List.isPerm_iff]
+
+theorem specStepB_iff (op : Op α) (xs : List α) (r : Except Err (List α)) :
+    specStepB off len op xs r = true ↔ SpecStep off len op xs r := by
+  cases op with
+  | sorted rev => simp only [specStepB, SpecStep]; exact sortedPermB_iff off rev xs r
+  | append zs sort =>
+    cases sort
+    · simp [specStepB, SpecStep, exceptEq_iff, stepRows]
+    · simp only [specStepB, SpecStep, if_true]; exact sortedPermB_iff off false _ r
+  | _ => simp [specStepB, SpecStep, exceptEq_iff, stepRows]
+
+omit [DecidableEq α] in
+theorem specFirstB_iff (xs : List α) (r : Option Rat) : specFirstB off xs r = true ↔ SpecFirst off xs r := by
+  cases r with
+  | none => simp [specFirstB, SpecFirst]
+  | some m => simp [specFirstB, SpecFirst, IsMin]
+
+omit [DecidableEq α] in
+theorem specLastB_iff (key : α → Rat) (xs : List α) (r : Option Rat) : specLastB key xs r = true ↔ SpecLast key xs r := by
+  cases r with
+  | none => simp [specLastB, SpecLast]
+  | some m => simp [specLastB, SpecLast, IsMax]
+
+end dec
+
+/-! ## 6. Declared fields (schemas generated from the source) -/
+
+/-- **Tie to the source.** For every list class of every game: `cls._default()` has the declared columns, an
+item built by the constructor carries exactly the constructor's named parameters (what `mkItem` assumes),
+`offset` is declared (and `length` for every hold list), the allowed names of `from_series` are the declared
+names, and no name is declared twice. A source change that breaks one of these breaks this proof. -/
+theorem schemas_tie : ∀ s ∈ schemas,
+    s.defaultCols = s.declaredNames ∧ s.paramNames = s.itemFields ∧ s.declaredNames.contains "offset" = true ∧
+    (s.kind = .hold → s.declaredNames.contains "length" = true) ∧
+    s.allowed.all (fun k => s.declaredNames.contains k) = true ∧
+    s.declaredNames.all (fun k => s.allowed.contains k) = true ∧ s.declaredNames.Nodup := by
+  decide
+
+theorem emptyF_cols (s : Schema) (n : Nat) : (emptyF s n).cols = s.declaredNames := rfl
+
+theorem emptyF_rows (s : Schema) (n : Nat) :
+    (emptyF s n).rows.length = n ∧ ∀ r ∈ rows (emptyF s n).rows, r = s.defaultRow := by
+  constructor
+  · simp [emptyF, relabel, length_relabelFrom]
+  · intro r hr
+    simp only [emptyF, rows_relabel] at hr
+    exact List.eq_of_mem_replicate hr
+
+/-- `cls.empty(n)` has exactly the declared fields and `n` rows — every list class, every `n` (post-D09) -/
+theorem empty_declared : ∀ s ∈ schemas, ∀ n : Nat,
+    hasDeclaredFields s (emptyF s n).cols = true ∧ (emptyF s n).rows.length = n := by
+  have key : ∀ s ∈ schemas, hasDeclaredFields s s.declaredNames = true := by decide
+  intro s hs n
+  exact ⟨key s hs, (emptyF_rows s n).1⟩
+
+/-- the same for `cls([])` -/
+theorem nil_declared : ∀ s ∈ schemas, hasDeclaredFields s (emptyFrame s).cols = true := by decide
+
+/-- before the repair of D09 (`reset_index()` without `drop=True`) no list class had the declared fields -/
+theorem empty_index_counterexample : ∀ s ∈ schemas, ∀ n : Nat, hasDeclaredFields s (emptyOldF s n).cols = false := by
+  have key : ∀ s ∈ schemas, hasDeclaredFields s ("index" :: s.declaredNames) = false := by decide
+  intro s hs n
+  exact key s hs
+
+/-- an item built by the constructor from keywords that are all named parameters has the named parameters as
+its fields, in order -/
+theorem mkItem_keys (ps : List (String × Option Cell)) (kw it : Rec) (h : mkItem ps kw = .ok it)
+    (hk : ∀ kv ∈ kw, (ps.map (·.1)).contains kv.1 = true) : it.map (·.1) = ps.map (·.1) := by
+  unfold mkItem at h
+  split at h
+  · cases h
+  · rename_i named hn
+    cases h
+    have hfil : kw.filter (fun kv => !(ps.map (·.1)).contains kv.1) = [] := by
+      rw [List.filter_eq_nil_iff]; intro kv hkv h
+      rw [hk kv hkv] at h; exact absurd h (by decide)
+    rw [hfil, List.append_nil]
+    clear hfil hk
+    induction ps generalizing named with
+    | nil => simp [mapE] at hn; subst hn; rfl
+    | cons p ps ih =>
+      simp only [mapE] at hn
+      split at hn
+      · cases hn
+      · rename_i b hb
+        split at hn
+        · cases hn
+        · rename_i bs hbs
+          cases hn
+          simp only [List.map_cons]
+          rw [ih bs hbs]
+          congr 1
+          revert hb
+          cases kw.lookup p.1 <;> cases p.2 <;> intro hb <;> simp at hb <;> (try cases hb) <;> rfl
+
+theorem unionKeys_const (ks : List String) (rs : List Rec) (hne : rs ≠ []) (h : ∀ r ∈ rs, r.map (·.1) = ks) :
+    unionKeys rs = ks := by
+  induction rs with
+  | nil => exact absurd rfl hne
+  | cons r rs ih =>
+    have hr : r.map (·.1) = ks := h r (List.mem_cons_self)
+    simp only [unionKeys, hr]
+    cases rs with
+    | nil => simp [unionKeys]
+    | cons r' rs' =>
+      rw [ih (by simp) (fun q hq => h q (List.mem_cons_of_mem _ hq))]
+      have : ks.filter (fun k => !ks.contains k) = [] := by
+        rw [List.filter_eq_nil_iff]; intro k hk; simp [hk]
+      rw [this, List.append_nil]
+
+/-- every list class but `OsuSvList` declares exactly its constructor's named parameters -/
+theorem params_declared : ∀ s ∈ schemas, s.name ≠ "OsuSvList" → sameFields s.paramNames s.declaredNames = true := by
+  decide
+
+/-- **A list built from items has exactly the declared fields** — every list class except `OsuSvList`
+(finding D1601), any non-empty list of items built by the constructor from its named parameters. -/
+theorem fromItems_declared (s : Schema) (hs : s ∈ schemas) (hname : s.name ≠ "OsuSvList")
+    (kws items : List Rec) (hne : kws ≠ [])
+    (hk : ∀ kw ∈ kws, ∀ kv ∈ kw, s.paramNames.contains kv.1 = true)
+    (h : mapE (mkItem s.params) kws = .ok items) :
+    hasDeclaredFields s (fromItemsF s items).cols = true ∧ (fromItemsF s items).rows.length = kws.length := by
+  have hall : ∀ kws items, mapE (mkItem s.params) kws = .ok items →
+      (∀ kw ∈ kws, ∀ kv ∈ kw, s.paramNames.contains kv.1 = true) →
+      items.length = kws.length ∧ ∀ r ∈ items, r.map (·.1) = s.paramNames := by
+    intro kws
+    induction kws with
+    | nil => intro items h _; simp [mapE] at h; subst h; simp
+    | cons kw kws ih =>
+      intro items h hk
+      simp only [mapE] at h
+      split at h
+      · cases h
+      · rename_i it hit
+        split at h
+        · cases h
+        · rename_i its hits
+          cases h
+          obtain ⟨hl, hr⟩ := ih its hits (fun q hq => hk q (List.mem_cons_of_mem _ hq))
+          refine ⟨by simp [hl], ?_⟩
+          intro r hr'
+          rcases List.mem_cons.mp hr' with rfl | hr'
+          · exact mkItem_keys s.params kw _ hit (hk kw (List.mem_cons_self))
+          · exact hr r hr'
+  obtain ⟨hl, hr⟩ := hall kws items h hk
+  have hine : items ≠ [] := by
+    intro h0; rw [h0] at hl; cases kws with
+    | nil => exact hne rfl
+    | cons _ _ => simp at hl
+  have hcols : (fromItemsF s items).cols = s.paramNames := by
+    cases items with
+    | nil => exact absurd rfl hine
+    | cons i is => exact unionKeys_const _ _ (by simp) hr
+  have hrows : (fromItemsF s items).rows.length = kws.length := by
+    cases items with
+    | nil => exact absurd rfl hine
+    | cons i is => simp [fromItemsF, relabel, length_relabelFrom, ← hl]
+  exact ⟨by rw [hasDeclaredFields, hcols]; exact params_declared s hs hname, hrows⟩
+
+/-- D1601: an `OsuSvList` built from one `OsuSv(offset=1)` has a `metronome` column that is not declared -/
+theorem osuSv_items_counterexample :
+    ∃ s ∈ schemas, s.name = "OsuSvList" ∧ s.declaredNames.contains "metronome" = false ∧
+      (match mkItem s.params [("offset", .num 1)] with
+        | .ok item => (fromItemsF s [item]).cols.contains "metronome" && !hasDeclaredFields s (fromItemsF s [item]).cols
+        | .error _ => false) = true := by
+  decide
+
+/-- `from_dict` refuses a dict with an undeclared key -/
+theorem fromDict_undeclared (s : Schema) (d : List (String × List Cell)) (k : String)
+    (hk : k ∈ d.map (·.1)) (hn : s.declaredNames.contains k = false) : fromDictF s d = .error .value := by
+  cases d with
+  | nil => simp at hk
+  | cons kv d' =>
+    simp only [fromDictF]
+    rw [if_neg]
+    intro hall
+    rw [List.all_eq_true] at hall
+    have := hall k hk
+    rw [hn] at this
+    cases this
+
+/-- **A list built from a dict has exactly the declared fields**: every declared key set, provided no field
+with a list-valued default is left out of a dict with rows (finding D1602). -/
+theorem fromDict_declared (s : Schema) (hnd : s.declaredNames.Nodup) (d : List (String × List Cell))
+    (hne : d ≠ []) (hkeys : (d.map (·.1)).Nodup) (hdecl : ∀ k ∈ d.map (·.1), k ∈ s.declaredNames)
+    (hlist : ∀ p ∈ s.declared, isListDefault p.2.2 = true → p.1 ∈ d.map (·.1)) :
+    ∃ f, fromDictF s d = .ok f ∧ hasDeclaredFields s f.cols = true := by
+  cases d with
+  | nil => exact absurd rfl hne
+  | cons kv d' =>
+    simp only [fromDictF]
+    have hall : ((kv :: d').map (·.1)).all (fun k => s.declaredNames.contains k) = true := by
+      rw [List.all_eq_true]; intro k hk; simpa using hdecl k hk
+    rw [if_pos hall]
+    have hany : (s.declared.filter (fun p => !((kv :: d').map (·.1)).contains p.1)).any
+        (fun p => isListDefault p.2.2) = false := by
+      rw [Bool.eq_false_iff]; intro h
+      rw [List.any_eq_true] at h
+      obtain ⟨p, hp, hpl⟩ := h
+      rw [List.mem_filter] at hp
+      have h1 := hlist p hp.1 hpl
+      have h2 : ((kv :: d').map (·.1)).contains p.1 = true := by simpa using h1
+      have h3 := hp.2
+      rw [h2] at h3
+      exact absurd h3 (by decide)
+    rw [if_neg (fun h => by rw [hany] at h; exact absurd h.2 (by decide))]
+    refine ⟨_, rfl, ?_⟩
+    simp only [hasDeclaredFields, sameFields, Bool.and_eq_true, List.all_eq_true, decide_eq_true_eq]
+    refine ⟨⟨?_, ?_⟩, ?_⟩
+    · intro k hk
+      rcases List.mem_append.mp hk with hk | hk
+      · simpa using hdecl k hk
+      · rw [List.mem_map] at hk
+        obtain ⟨p, hp, rfl⟩ := hk
+        have := (List.mem_filter.mp hp).1
+        simp only [List.contains_iff_mem, Schema.declaredNames]
+        exact List.mem_map_of_mem this
+    · intro k hk
+      simp only [List.contains_iff_mem]
+      by_cases hkd : k ∈ (kv :: d').map (·.1)
+      · exact List.mem_append_left _ hkd
+      · apply List.mem_append_right
+        simp only [Schema.declaredNames, List.mem_map] at hk
+        obtain ⟨p, hp, rfl⟩ := hk
+        exact List.mem_map_of_mem (List.mem_filter.mpr ⟨hp, by simpa using hkd⟩)
+    · rw [List.nodup_append]
+      refine ⟨hkeys, ?_, ?_⟩
+      · have : List.Sublist ((s.declared.filter (fun p => !((kv :: d').map (·.1)).contains p.1)).map (·.1)) s.declaredNames :=
+          (List.filter_sublist).map _
+        exact this.nodup hnd
+      · intro a ha b hb hab
+        subst hab
+        rw [List.mem_map] at hb
+        obtain ⟨p, hp, rfl⟩ := hb
+        have h3 := (List.mem_filter.mp hp).2
+        have h2 : ((kv :: d').map (·.1)).contains p.1 = true := by simpa using ha
+        rw [h2] at h3
+        exact absurd h3 (by decide)
+
+/-- D1602: `QuaHitList.from_dict({"offset": [1], "column": [1]})` raises instead of filling `keysounds` -/
+theorem fromDict_list_default_counterexample :
+    ∃ s ∈ schemas, s.name = "QuaHitList" ∧
+      (match fromDictF s [("offset", [.num 1]), ("column", [.num 1])] with
+        | .error .value => true
+        | _ => false) = true := by
+  decide
+
+/-! ## 7. An item built from a row carries the row's values -/
+
+theorem lookup_mapE_named (ps : List (String × Option Cell)) (kw named : Rec) (k : String) (v : Cell)
+    (hn : mapE (fun (p : String × Option Cell) =>
+      match kw.lookup p.1, p.2 with
+      | some v, _ => Except.ok (p.1, v)
+      | none, some d => .ok (p.1, d)
+      | none, none => .error Err.type) ps = .ok named)
+    (hv : kw.lookup k = some v) (hk : k ∈ ps.map (·.1)) : named.lookup k = some v := by
+  induction ps generalizing named with
+  | nil => simp at hk
+  | cons p ps ih =>
+    simp only [mapE] at hn
+    split at hn
+    · cases hn
+    · rename_i b hb
+      split at hn
+      · cases hn
+      · rename_i bs hbs
+        cases hn
+        by_cases hpk : p.1 = k
+        · have : b = (k, v) := by
+            rw [hpk, hv] at hb
+            simp at hb; exact hb.symm
+          rw [this]; simp [List.lookup]
+        · have hb1 : b.1 = p.1 := by
+            revert hb
+            cases kw.lookup p.1 <;> cases p.2 <;> intro hb <;> simp at hb <;> (try cases hb) <;> rfl
+          have hne : (k == b.1) = false := by
+            rw [hb1]; simp; exact fun h => hpk h.symm
+          rw [List.lookup_cons, hne]
+          apply ih bs hbs
+          simp only [List.map_cons, List.mem_cons] at hk
+          rcases hk with h | h
+          · exact absurd h.symm hpk
+          · exact h
+
+theorem lookup_append_of_not_mem (a b : Rec) (k : String) (h : k ∉ a.map (·.1)) : (a ++ b).lookup k = b.lookup k := by
+  induction a with
+  | nil => rfl
+  | cons p a ih =>
+    simp only [List.map_cons, List.mem_cons, not_or] at h
+    have : (k == p.1) = false := by simp; exact h.1
+    rw [List.cons_append, List.lookup_cons, this]
+    exact ih h.2
+
+theorem lookup_filter_key (kw : Rec) (q : String → Bool) (k : String) (hq : q k = true) :
+    (kw.filter fun kv => q kv.1).lookup k = kw.lookup k := by
+  induction kw with
+  | nil => rfl
+  | cons p kw ih =>
+    obtain ⟨pk, pv⟩ := p
+    by_cases hqp : q pk = true
+    · have e : List.filter (fun kv => q kv.1) ((pk, pv) :: kw) = (pk, pv) :: List.filter (fun kv => q kv.1) kw := by
+        simp [hqp]
+      rw [e, List.lookup_cons, List.lookup_cons, ih]
+    · have e : List.filter (fun kv => q kv.1) ((pk, pv) :: kw) = List.filter (fun kv => q kv.1) kw := by
+        simp [hqp]
+      have hne : (k == pk) = false := by
+        rw [beq_eq_false_iff_ne]; intro h; rw [← h] at hqp; exact hqp hq
+      rw [e, List.lookup_cons, hne]; exact ih
+
+theorem mkItem_named_keys (ps : List (String × Option Cell)) (kw named : Rec)
+    (hn : mapE (fun (p : String × Option Cell) =>
+      match kw.lookup p.1, p.2 with
+      | some v, _ => Except.ok (p.1, v)
+      | none, some d => .ok (p.1, d)
+      | none, none => .error Err.type) ps = .ok named) : named.map (·.1) = ps.map (·.1) := by
+  induction ps generalizing named with
+  | nil => simp [mapE] at hn; subst hn; rfl
+  | cons p ps ih =>
+    simp only [mapE] at hn
+    split at hn
+    · cases hn
+    · rename_i b hb
+      split at hn
+      · cases hn
+      · rename_i bs hbs
+        cases hn
+        simp only [List.map_cons]
+        rw [ih bs hbs]
+        congr 1
+        revert hb
+        cases kw.lookup p.1 <;> cases p.2 <;> intro hb <;> simp at hb <;> (try cases hb) <;> rfl
+
+/-- **Item of a row** (`tl[i]`, no name filter): whenever the constructor accepts the row, every field of the
+row is a field of the item with the same value — for any constructor signature. -/
+theorem item_of_row (ps : List (String × Option Cell)) (row it : Rec) (h : mkItem ps row = .ok it)
+    (k : String) (v : Cell) (hv : row.lookup k = some v) : it.lookup k = some v := by
+  unfold mkItem at h
+  split at h
+  · cases h
+  · rename_i named hn
+    cases h
+    by_cases hk : k ∈ ps.map (·.1)
+    · have := lookup_mapE_named ps row named k v hn hv hk
+      rw [List.lookup_append, this]; rfl
+    · rw [lookup_append_of_not_mem _ _ _ (by rw [mkItem_named_keys ps row named hn]; exact hk)]
+      rw [lookup_filter_key row (fun n => !(ps.map (·.1)).contains n) k (by simpa using hk)]
+      exact hv
+
+/-- iteration (`from_series`): the allowed fields of the row are carried -/
+theorem item_of_series (s : Schema) (row it : Rec) (h : fromSeries s row = .ok it)
+    (k : String) (v : Cell) (hv : row.lookup k = some v) (hk : s.allowed.contains k = true) : it.lookup k = some v := by
+  unfold fromSeries at h
+  apply item_of_row s.params _ it h k v
+  rw [lookup_filter_key row (fun n => s.allowed.contains n) k hk]
+  exact hv
+
+theorem lookup_of_mem_nodup (row : Rec) (h : (row.map (·.1)).Nodup) (kv : String × Cell) (hkv : kv ∈ row) :
+    row.lookup kv.1 = some kv.2 := by
+  induction row with
+  | nil => cases hkv
+  | cons p row ih =>
+    obtain ⟨pk, pv⟩ := p
+    simp only [List.map_cons, List.nodup_cons] at h
+    rcases List.mem_cons.mp hkv with rfl | hm
+    · simp
+    · have hne : (kv.1 == pk) = false := by
+        rw [beq_eq_false_iff_ne]; intro e; apply h.1; rw [← e]; exact List.mem_map_of_mem hm
+      rw [List.lookup_cons, hne]; exact ih h.2 hm
+
+/-- the decidable check the harness runs on `tl[i]` (`itemCarries` over all fields of the row) holds for the model -/
+theorem getItem_carries (ps : List (String × Option Cell)) (row it : Rec) (h : mkItem ps row = .ok it)
+    (hnd : (row.map (·.1)).Nodup) : itemCarries (row.map (·.1)) row it = true := by
+  unfold itemCarries
+  rw [List.all_eq_true]
+  intro kv hkv
+  have := item_of_row ps row it h kv.1 kv.2 (lookup_of_mem_nodup row hnd kv hkv)
+  simp [this]
+
+/-- the decidable check the harness runs on iterated items (`itemCarries` over the declared fields) holds for
+the model, for every schema whose declared names are allowed names (`schemas_tie`) -/
+theorem iter_carries (s : Schema) (hs : s.declaredNames.all (fun k => s.allowed.contains k) = true) (row it : Rec)
+    (h : fromSeries s row = .ok it) (hnd : (row.map (·.1)).Nodup) : itemCarries s.declaredNames row it = true := by
+  unfold itemCarries
+  rw [List.all_eq_true]
+  intro kv hkv
+  by_cases hk : s.declaredNames.contains kv.1 = true
+  · rw [List.all_eq_true] at hs
+    have hal := hs kv.1 (by simpa using hk)
+    have := item_of_series s row it h kv.1 kv.2 (lookup_of_mem_nodup row hnd kv hkv) hal
+    simp [this]
+  · have hk' : kv.1 ∉ s.declaredNames := by simpa using hk
+    simp [hk']
+
+/-! ## 8. Non-vacuity and regression examples (kernel-evaluated) -/
+
+section examples
+
+def exRows : Tbl Rec :=
+  [(7, [("offset", .num 3), ("length", .num 2)]), (3, [("offset", .num 1), ("length", .num 5)]),
+   (3, [("offset", .num 2), ("length", .num (1/2))]), (-1, [("offset", .num 1), ("length", .num 1)])]
+
+-- a history: sort, slice, tail filter on the bound
+example : (run recOff recLen [.sorted false, .slice (some 1) (some 3) none, .hAfter 2 true true] exRows).map rows
+    = .ok [[("offset", .num 1), ("length", .num 1)], [("offset", .num 2), ("length", .num (1/2))]] := by decide +kernel
+-- the hypothesis of `after_boundary` is satisfiable, and the flag decides
+example : afterT recOff exRows 2 true = .ok [exRows[0], exRows[2]] := by decide +kernel
+example : (afterT recOff exRows 2 false).map rows = .ok [exRows[0].2] := by decide +kernel
+-- Python slices
+example : pySlice [0, 1, 2, 3, 4] (some (-2)) none none = .ok [3, 4] := by decide +kernel
+example : pySlice [0, 1, 2, 3, 4] none none (some (-2)) = .ok [4, 2, 0] := by decide +kernel
+example : pySlice [0, 1, 2, 3, 4] (some 1) (some 100) (some 2) = .ok [1, 3] := by decide +kernel
+example : pySlice [0, 1, 2, 3, 4] (some 4) (some 0) (some (-1)) = .ok [4, 3, 2, 1] := by decide +kernel
+example : pySlice [0, 1, 2] none none (some 0) = .error .value := by decide +kernel
+example : pyGet [10, 20, 30] (-1) = .ok 30 ∧ pyGet [10, 20, 30] 3 = .error .index ∧ pyGet [10, 20, 30] (-4) = .error .index := by
+  decide +kernel
+-- `hLastOffset` raises on the empty list, `lastOffset` has no value
+example : hLastOffset recOff recLen ([] : Tbl Rec) = .error .value ∧ lastOffset recOff ([] : Tbl Rec) = none := by decide +kernel
+example : hLastOffset recOff recLen exRows = .ok 6 ∧ firstOffset recOff exRows = some 1 := by decide +kernel
+-- `fromItems_declared`, `fromDict_declared`: hypotheses satisfiable
+example : ∃ s ∈ schemas, s.name = "OsuHoldList" ∧
+    (match mapE (mkItem s.params) [[("offset", .num 1), ("column", .num 2), ("length", .num 3)]] with
+      | .ok items => hasDeclaredFields s (fromItemsF s items).cols
+      | .error _ => false) = true := by decide +kernel
+example : ∃ s ∈ schemas, s.name = "OsuBpmList" ∧
+    (match fromDictF s [("offset", [.num 1, .num 2])] with
+      | .ok f => hasDeclaredFields s f.cols && f.rows.length == 2
+      | .error _ => false) = true := by decide +kernel
+-- `item_of_row`
+example : ∃ s ∈ schemas, s.name = "HoldList" ∧
+    getItem s [(5, [("length", .num 1), ("column", .num 2), ("offset", .num 1)])] (-1)
+      = .ok [("offset", .num 1), ("column", .num 2), ("length", .num 1)] ∧
+    getItem s exRows 0 = .error .type := by decide +kernel
+
+end examples
+
+end Reamber.TList
